@@ -92,7 +92,7 @@ def load_corpus(prop):
         for fn in sorted(os.listdir(d)):
             if fn.endswith(".json"):
                 try:
-                    out.append(json.load(open(os.path.join(d, fn))))
+                    out.append(core.decanon(json.load(open(os.path.join(d, fn)))))
                 except Exception:
                     pass
     return out
@@ -293,7 +293,7 @@ def run_check(prop, tier, seed):
 
 def run_replay(prop, path):
     mod = importlib.import_module(f"harness.props.{prop}")
-    data = json.load(open(path))
+    data = core.decanon(json.load(open(path)))
     if "case" not in data:
         print(json.dumps(data, indent=1))
         return 1
